@@ -89,8 +89,8 @@ def ffloordiv(a, b):
 
 def fmod(a, b):
     need_num(a, b)
-    if b == 0:
-        raise ZeroDivisionError
+    if b <= 0:
+        raise Unsupported('bi.mod with a non-positive modulus follows sclang, not Python (C15)')
     r = Fraction(a) - Fraction(b) * math.floor(Fraction(a) / Fraction(b))
     return r if (isfloat(a) or isfloat(b)) else int(r)
 
@@ -137,7 +137,7 @@ FUNCS = {
     'dbl': lambda x: BIN['mul'](x, 2),
     'neg': neg,
     'pair': lambda x: [x, x],
-    'even': lambda x: fmod(x, 2) == 0,
+    'even': lambda x: (need_num(x), Fraction(x) % 2 == 0)[1],
     'lt3': lambda x: BIN['lt'](x, 3),
     'pos': lambda x: BIN['gt'](x, 0),
 }
